@@ -51,10 +51,11 @@ func (d *walkDstCache) arr(depth int) *simdjson.Array {
 }
 
 type walkCtx struct {
-	steps int
-	cap   int
-	depth int
-	elems *simdjson.Elements // reused destination of Object.Parse (documented: "An optional destination can be given")
+	scalars int
+	steps   int
+	cap     int
+	depth   int
+	elems   *simdjson.Elements // reused destination of Object.Parse (documented: "An optional destination can be given")
 }
 
 var errStepCap = errors.New("walker exceeded its step cap (does not terminate)")
@@ -200,12 +201,21 @@ func (w *walkCtx) advValue(it *simdjson.Iter, t simdjson.Type) (*MV, error) {
 	}
 	v, err := scalarOf(it, t)
 	if err == nil {
-		if cerr := crossReads(it, t, v); cerr != nil {
-			return nil, cerr
+		// on big tapes every 16th scalar (the accessors make an error value per call for the wrong type: nine calls
+		// per scalar over hundreds of thousands of scalars were a third of a check's time)
+		w.scalars++
+		if (w.cap < 8*4096 || w.scalars%16 == 0) && w.scalars%crossReadStride == 0 {
+			if cerr := crossReads(it, t, v); cerr != nil {
+				return nil, cerr
+			}
 		}
 	}
 	return v, err
 }
+
+// crossReadStride thins the typed cross-reads out where results are looked at for panics only (the traversal battery of
+// the fault engines sets it while it runs: thousands of accepted fault cases per run, each traversed completely).
+var crossReadStride = 1
 
 // crossReads calls the typed accessors that do NOT belong to the value's own type on a scalar the iterator stands on and
 // holds them to their documentation: Float/FloatFlags convert integers ("Integers are automatically converted to
